@@ -104,7 +104,7 @@ def translate_factory(init):
     return args, out
 
 
-def generate(repo_root='/repo'):
+def generate(repo_root=os.environ.get('VERIF_REPO', '/repo')):
     path = os.path.join(repo_root, 'pyroll/core/profile/profile.py')
     tree = ast.parse(open(path).read())
     L = ["(* GENERATED by tools/py2coq/factories_ti.py from profile.py. Do not edit. *)",
